@@ -339,7 +339,7 @@ class TranscriptInterval(AbstractFeatureInterval):
         return dict(
             exon_starts=exon_starts,
             exon_ends=exon_ends,
-            strand=self.strand.name,
+            strand=(self.strand if chromosome_relative_coordinates else self.chunk_relative_strand).name,
             cds_starts=cds_starts,
             cds_ends=cds_ends,
             cds_frames=cds_frames,
@@ -766,7 +766,7 @@ class TranscriptInterval(AbstractFeatureInterval):
             (self.start if chromosome_relative_coordinates else self.chunk_relative_start) + 1,
             self.end if chromosome_relative_coordinates else self.chunk_relative_end,
             NULL_COLUMN,
-            self.strand,
+            self.strand if chromosome_relative_coordinates else self.chunk_relative_strand,
             CDSPhase.NONE,
             attributes,
         )
@@ -794,7 +794,7 @@ class TranscriptInterval(AbstractFeatureInterval):
                 start + 1,
                 end,
                 NULL_COLUMN,
-                self.strand,
+                self.strand if chromosome_relative_coordinates else self.chunk_relative_strand,
                 CDSPhase.NONE,
                 attributes,
             )
@@ -867,7 +867,7 @@ class TranscriptInterval(AbstractFeatureInterval):
             end,
             getattr(self, name, name),
             score,
-            self.strand,
+            self.strand if chromosome_relative_coordinates else self.chunk_relative_strand,
             cds_start,
             cds_end,
             rgb,
